@@ -246,7 +246,7 @@ func harnessC06CancelledMidRun() {
 	vCover("waited")
 }
 
-//verif:entry property=C06 tier=both bounds="two goroutines waiting at once (Wait+Wait, or Wait+Shutdown with a live context) for one async invocation that yields mid-way, a third call to Wait afterwards; every interleaving within the preemption bound; every waiter returns, and only after the invocation has finished" cover="both-returned" preempt_quick=2 preempt_thorough=3 race=on
+//verif:entry property=C06 tier=both bounds="two goroutines waiting at once (Wait+Wait, or Wait+Shutdown with a live context) for one async invocation that yields mid-way, a third call to Wait afterwards; every interleaving within the preemption bound; every waiter returns, and only after the invocation has finished" cover="both-returned" preempt_quick=2 preempt_thorough=2 race=on
 func harnessC06TwoWaiters() {
 	bus := New()
 	var mu sync.Mutex
